@@ -149,16 +149,40 @@ Definition read_exit_bm_wraps : bool :=
   nonempty_all "return maybeTaskFatalErr{err}" worker_run_read_error_exits
   && nonempty_all "return maybeTaskFatalErr{err}" run_combine_read_error_exits.
 
-Definition commit_merge_unprotected : bool :=
-  commit_spawns_write_combiner && write_combiner_merges_in_goroutine
-  && combiner_writeto_reads_merge && negb write_combiner_recovers.
+(* the merge of spilled runs at commit time does call the user's combiner, in a goroutine *)
+Definition commit_merge_in_goroutine : bool :=
+  commit_spawns_write_combiner && write_combiner_merges_in_goroutine && combiner_writeto_reads_merge.
+
+(* [wr] is the generated switch write_combiner_recovers: does that goroutine recover?
+   What its recover does is the generated record; for code without one, [wr = true]
+   stands for `defer recoverFatal(&err)` on a named result, like the other users of the helper. *)
+Definition commit_rsite : rsite :=
+  match write_combiner_rsite with
+  | r :: _ => r
+  | [] => mkRsite "bigmachine" "worker.writeCombiner" true false true true false
+  end.
+
+(* the recovered error is recorded (combinerErrors) and CommitCombiner returns it inside a
+   maybeTaskFatalErr{errors.E(..., err)}: errors.E inherits the severity of the error it wraps *)
+Definition commit_error_returned : bool :=
+  write_combiner_records_error
+  && String.eqb commit_combiner_error_return
+       "return maybeTaskFatalErr{errors.E(""error while writing combiner"", w.combinerErrors[key])}".
 
 (* the outcome of ONE execution of the task in which the failure fires *)
-Definition attempt_result (c : csite) (m : mode) (x : xkind) (comb : bool) : aresult :=
+Definition attempt_result (wr : bool) (c : csite) (m : mode) (x : xkind) (comb : bool) : aresult :=
   let stk := stack c x comb in
   match c, raise c m with
   | _, RaiseUnmodelled => AUnmodelled
-  | CCombCommit, Panic => if commit_merge_unprotected then ACrash else AUnmodelled
+  | CCombCommit, Panic =>
+      if negb commit_merge_in_goroutine then AUnmodelled
+      else if negb wr then ACrash                    (* nothing on that goroutine recovers *)
+      else if negb commit_error_returned then AUnmodelled
+      else
+        match recovered commit_rsite true with
+        | AErr e => AErr (mkErr (e_sev e) true (e_msg e))    (* as returned by CommitCombiner *)
+        | a => a
+        end
   | _, Returned e =>
       match x with
       | XLocal => if read_exit_local_plain then AErr e else AUnmodelled
@@ -244,9 +268,10 @@ Definition of_aresult (a : aresult) (k : aresult -> tres) : tres :=
 
 (* [fails k]: does the failure fire in the k-th execution of the task?  The
    result carries the index of the next execution. *)
-Definition local_submit (c : csite) (m : mode) (comb : bool) (fails : nat -> bool) (k : nat) : tres * nat :=
+Definition local_submit (wr : bool) (c : csite) (m : mode) (comb : bool) (fails : nat -> bool) (k : nat)
+  : tres * nat :=
   if fails k then
-    match attempt_result c m XLocal comb with
+    match attempt_result wr c m XLocal comb with
     | ACrash => (TRcrash, S k)
     | ASwallowed => (TRpartial, S k)
     | AUnmodelled => (TRunmodelled, S k)
@@ -258,22 +283,54 @@ Definition local_submit (c : csite) (m : mode) (comb : bool) (fails : nat -> boo
     end
   else (TRstate TOk false, S k).
 
-Fixpoint bm_call (dt : bool) (fuel : nat) (c : csite) (m : mode) (x : xkind) (comb : bool)
+(* where the error of a failed commit reaches the driver: with machine combiners the consumer's
+   bigmachineExecutor.Run commits the buffers of its dependencies itself, before it calls
+   Worker.Run (`if err := g.Wait(); err != nil { task.Errorf(...); m.Done(..); return }`);
+   otherwise runCombine commits its own buffer and the error leaves through Worker.Run *)
+Definition commit_by_driver (c : csite) (x : xkind) : bool :=
+  match c, x with
+  | CCombCommit, XBigmachineMC => bm_run_commits_dependencies
+  | _, _ => false
+  end.
+Definition own_commit_modelled : bool :=
+  String.eqb run_combine_commit_cond "err == nil && task.CombineKey == """"".
+
+Definition commit_call_retries_temporary : option bool :=
+  if String.eqb bm_commit_call "RetryCall" then Some true
+  else if String.eqb bm_commit_call "Call" then Some false else None.
+
+Fixpoint bm_call (dt wr : bool) (fuel : nat) (c : csite) (m : mode) (x : xkind) (comb : bool)
   (fails : nat -> bool) (k : nat) : tres * nat :=
   match fuel with
   | O => (TRhang, k)                     (* the call is still being retried *)
   | S fuel' =>
       if fails k then
-        match attempt_result c m x comb with
+        match attempt_result wr c m x comb with
         | ACrash => (TRcrash, S k)
         | ASwallowed => (TRpartial, S k)
         | AUnmodelled => (TRunmodelled, S k)
         | AErr e0 =>
+            if commit_by_driver c x then
+              (* Worker.CommitCombiner's error, seen by the consumer's Run *)
+              match commit_call_retries_temporary with
+              | None => (TRunmodelled, S k)
+              | Some rt =>
+                  if rt && is_temporary e0 then bm_call dt wr fuel' c m x comb fails (S k)
+                  else if negb bm_commit_failure_releases_and_returns then (TRunmodelled, S k)
+                  else
+                    match tstate_of bm_commit_failure_target with
+                    | Some t => (TRstate t (e_msg e0 && bm_commit_failure_formats_error), S k)
+                    | None => (TRunmodelled, S k)
+                    end
+              end
+            else if match c with CCombCommit => negb own_commit_modelled | _ => false end
+            then (TRunmodelled, S k)
+            else
             let e := revise dt e0 in
             match call_retries_temporary with
             | None => (TRunmodelled, S k)
             | Some rt =>
-                if rt && is_temporary e then bm_call dt fuel' c m x comb fails (S k)
+                if rt && is_temporary e then bm_call dt wr fuel' c m x comb fails (S k)
                 else
                   match switch bm_run_switch (mkRpc false false true (is_fatal e)) with
                   | Some t => (TRstate t (e_msg e), S k)
@@ -314,20 +371,20 @@ Fixpoint drive (fuel : nat) (submit : nat -> tres * nat) (k : nat) (lost : Z) : 
 (* how long the model follows RetryCall before it reports the call as not returning *)
 Definition retry_fuel : nat := 64.
 
-Definition submit_of (dt : bool) (c : csite) (m : mode) (x : xkind) (comb : bool) (fails : nat -> bool)
+Definition submit_of (dt wr : bool) (c : csite) (m : mode) (x : xkind) (comb : bool) (fails : nat -> bool)
   : nat -> tres * nat :=
   match x with
-  | XLocal => local_submit c m comb fails
-  | _ => bm_call dt retry_fuel c m x comb fails
+  | XLocal => local_submit wr c m comb fails
+  | _ => bm_call dt wr retry_fuel c m x comb fails
   end.
 
 (* what Run returns, and the number of executions of the failing task *)
-Definition surface_with (dt : bool) (c : csite) (m : mode) (x : xkind) (comb : bool) (fails : nat -> bool)
+Definition surface_with (dt wr : bool) (c : csite) (m : mode) (x : xkind) (comb : bool) (fails : nat -> bool)
   : result * nat :=
-  drive (S (Z.to_nat eval_max_consecutive_lost)) (submit_of dt c m x comb fails) 0 0.
+  drive (S (Z.to_nat eval_max_consecutive_lost)) (submit_of dt wr c m x comb fails) 0 0.
 
 (* ... for the code as it is now *)
-Definition surface := surface_with worker_downgrades_temporary.
+Definition surface := surface_with worker_downgrades_temporary write_combiner_recovers.
 
 (* ---- the sets the theorems speak about ---- *)
 
@@ -349,9 +406,10 @@ Definition known_unbounded (dt : bool) (c : csite) (m : mode) (x : xkind) : bool
   | _, _, _ => false
   end.
 
-(* the merge of spilled runs at commit time runs the combiner in a goroutine without recover *)
-Definition known_crash (c : csite) : bool :=
-  match c with CCombCommit => true | _ => false end.
+(* the finding: unless that goroutine recovers ([wr]), a panic of the combiner in the merge of
+   spilled runs at commit time kills the process *)
+Definition known_crash (wr : bool) (c : csite) : bool :=
+  if wr then false else match c with CCombCommit => true | _ => false end.
 
 Definition is_bad (r : result) : bool :=
   match r with RCrash | RPartial | RUnmodelled => true | _ => false end.
